@@ -1,9 +1,123 @@
 import SigmaVerif.Model.Cidr
+import SigmaVerif.Lemmas.Cidr
+/-!
+# C18 — CIDR expansion into wildcard patterns
+
+IPv4: for every prefix length and every aligned network the produced patterns match exactly the
+addresses of the network, and no address is matched twice.  IPv6: the unchanged code is neither
+complete nor sound; concrete witnesses.
+-/
 namespace SigmaVerif.Props.C18
 open SigmaVerif.Cidr
 
-/-- the unchanged code misses `2001:db8::ff` for the network `2001:db8::/120` -/
-theorem v6_incomplete_120_patterns :
-    expand6 (0x20010db8 * 2^96) 120 = ["2001:db8::".toList] := by decide +kernel
+/-- IPv4 exactness: an address (as dotted-quad text) is matched by one of the produced patterns
+iff it lies in the network — for all 33 prefix lengths, all aligned networks, all addresses. -/
+theorem v4_exact (base p a : Nat) (hp : p ≤ 32) (hb : base < 2 ^ 32)
+    (hal : base % 2 ^ (32 - p) = 0) (ha : a < 2 ^ 32) :
+    matches4 base p a = inNet 32 base p a :=
+  matches4_eq_inNet base p a hp hb hal ha
+
+/-- non-vacuity: 192.168.0.0/22 matches 192.168.3.77 and not 192.168.4.0 -/
+example : matches4 (192 * 2 ^ 24 + 168 * 2 ^ 16) 22 (192 * 2 ^ 24 + 168 * 2 ^ 16 + 3 * 2 ^ 8 + 77) = true
+    ∧ matches4 (192 * 2 ^ 24 + 168 * 2 ^ 16) 22 (192 * 2 ^ 24 + 168 * 2 ^ 16 + 4 * 2 ^ 8) = false := by
+  rw [v4_exact _ _ _ (by decide) (by decide) (by decide) (by decide),
+    v4_exact _ _ _ (by decide) (by decide) (by decide) (by decide)]
+  decide
+
+/-- IPv4 irredundancy: no address is matched by two different produced patterns. -/
+theorem v4_irredundant (base p : Nat) (hp : p ≤ 32) (hb : base < 2 ^ 32)
+    (hal : base % 2 ^ (32 - p) = 0) (i j : Nat) (hij : i < j) (hj : j < (expand4 base p).length)
+    (a : Nat) (ha : a < 2 ^ 32) :
+    ¬ (glob (expand4 base p)[i] (render4 a) = true ∧ glob (expand4 base p)[j] (render4 a) = true) :=
+  expand4_disjoint base p hp hb hal i j hij hj a ha
+
+/-- non-vacuity: 10.0.0.0/13 produces 8 patterns, so there are 28 pairs `i < j` -/
+example : (expand4 (10 * 2 ^ 24) 13).length = 8 := by decide
+
+example (a : Nat) (ha : a < 2 ^ 32) :
+    ¬ (glob ((expand4 (10 * 2 ^ 24) 13)[2]'(by decide)) (render4 a) = true
+      ∧ glob ((expand4 (10 * 2 ^ 24) 13)[5]'(by decide)) (render4 a) = true) :=
+  v4_irredundant _ _ (by decide) (by decide) (by decide) 2 5 (by decide) (by decide) a ha
+
+/-- the produced IPv4 patterns are pairwise different -/
+theorem v4_nodup (base p : Nat) (hp : p ≤ 32) (hb : base < 2 ^ 32)
+    (hal : base % 2 ^ (32 - p) = 0) : (expand4 base p).Nodup :=
+  expand4_nodup base p hp hb hal
+
+example : (expand4 (10 * 2 ^ 24) 13).Nodup := v4_nodup _ _ (by decide) (by decide) (by decide)
+
+/-! ## IPv6: the unchanged code is incomplete (and unsound) -/
+
+/-- 2001:db8::/120 yields the single pattern `2001:db8::`, which misses 2001:db8::ff. -/
+theorem v6_incomplete_120 :
+    matches6 (0x20010db8 * 2 ^ 96) 120 (0x20010db8 * 2 ^ 96 + 255) = false := by
+  rw [matches6_eq_matches6S]; decide +kernel
+
+theorem v6_incomplete_120_inNet :
+    inNet 128 (0x20010db8 * 2 ^ 96) 120 (0x20010db8 * 2 ^ 96 + 255) = true := by decide +kernel
+
+/-- what is produced, for the record -/
+example : expand6 (0x20010db8 * 2 ^ 96) 120 = ["2001:db8::".toList] := by decide +kernel
+
+/-- 2001:db8::/64 yields the single pattern `2001:db8::`, which misses 2001:db8::1. -/
+theorem v6_incomplete_64 :
+    matches6 (0x20010db8 * 2 ^ 96) 64 (0x20010db8 * 2 ^ 96 + 1) = false := by
+  rw [matches6_eq_matches6S]; decide +kernel
+
+theorem v6_incomplete_64_inNet :
+    inNet 128 (0x20010db8 * 2 ^ 96) 64 (0x20010db8 * 2 ^ 96 + 1) = true := by decide +kernel
+
+example : expand6 (0x20010db8 * 2 ^ 96) 64 = ["2001:db8::".toList] := by decide +kernel
+
+/-- The IPv6 patterns are also unsound: 2001:0:0:1::/64 yields `2001:*`, which matches
+2001:1:: — an address outside the network. -/
+theorem v6_unsound_64 :
+    matches6 (0x2001 * 2 ^ 112 + 1 * 2 ^ 64) 64 (0x2001 * 2 ^ 112 + 1 * 2 ^ 96) = true
+    ∧ inNet 128 (0x2001 * 2 ^ 112 + 1 * 2 ^ 64) 64 (0x2001 * 2 ^ 112 + 1 * 2 ^ 96) = false := by
+  rw [matches6_eq_matches6S]; decide +kernel
+
+example : expand6 (0x2001 * 2 ^ 112 + 1 * 2 ^ 64) 64 = ["2001:*".toList] := by decide +kernel
+
+/-- 1:2:3:4:5:6:7:10/124 yields `1:2:3:4:5:6:7:1*`, which matches 1:2:3:4:5:6:7:100 — outside
+the network (the wildcard is not confined to one hex digit). -/
+theorem v6_unsound_124 :
+    matches6 (0x0001000200030004000500060007 * 2 ^ 16 + 0x10) 124
+      (0x0001000200030004000500060007 * 2 ^ 16 + 0x100) = true
+    ∧ inNet 128 (0x0001000200030004000500060007 * 2 ^ 16 + 0x10) 124
+      (0x0001000200030004000500060007 * 2 ^ 16 + 0x100) = false := by
+  rw [matches6_eq_matches6S]; decide +kernel
+
+example : expand6 (0x0001000200030004000500060007 * 2 ^ 16 + 0x10) 124
+    = ["1:2:3:4:5:6:7:1*".toList] := by decide +kernel
+
+/-! ## IPv6: a sufficient condition for completeness -/
+
+/-- If the prefix length is a multiple of 16 (16 … 128) and every fixed hextet of the network
+address is non-zero, then every address of the network is matched by the produced pattern. -/
+theorem v6_complete_partial (base p a : Nat) (hp16 : p % 16 = 0) (hp1 : 16 ≤ p) (hp2 : p ≤ 128)
+    (hal : base % 2 ^ (128 - p) = 0) (hnz : ∀ h ∈ (hextets base).take (p / 16), h ≠ 0)
+    (hin : inNet 128 base p a = true) : matches6 base p a = true :=
+  matches6_of_inNet base p a hp16 hp1 hp2 hal hnz hin
+
+/-- non-vacuity: 2001:db8:1::/48 and its address 2001:db8:1::ff -/
+example : matches6 (0x20010db80001 * 2 ^ 80) 48 (0x20010db80001 * 2 ^ 80 + 255) = true :=
+  v6_complete_partial _ _ _ (by decide) (by decide) (by decide) (by decide +kernel)
+    (by decide +kernel) (by decide +kernel)
+
+/-- Under the same hypothesis the pattern is also sound, hence exact: an address below 2^128 is
+matched iff it lies in the network. -/
+theorem v6_exact_partial (base p a : Nat) (hp16 : p % 16 = 0) (hp1 : 16 ≤ p) (hp2 : p ≤ 128)
+    (hb : base < 2 ^ 128) (ha : a < 2 ^ 128) (hal : base % 2 ^ (128 - p) = 0)
+    (hnz : ∀ h ∈ (hextets base).take (p / 16), h ≠ 0) :
+    matches6 base p a = inNet 128 base p a := by
+  rw [Bool.eq_iff_iff]
+  exact ⟨inNet_of_matches6 base p a hp16 hp1 hp2 hb ha hal hnz,
+    matches6_of_inNet base p a hp16 hp1 hp2 hal hnz⟩
+
+/-- non-vacuity: 2001:db8:1::/48 does not match 2001:db8:2::ff -/
+example : matches6 (0x20010db80001 * 2 ^ 80) 48 (0x20010db80002 * 2 ^ 80 + 255) = false := by
+  rw [v6_exact_partial _ _ _ (by decide) (by decide) (by decide) (by decide +kernel)
+    (by decide +kernel) (by decide +kernel) (by decide +kernel)]
+  decide +kernel
 
 end SigmaVerif.Props.C18
